@@ -142,29 +142,54 @@ func hangsOnReplace(t pbt.TB, driver string) bool {
 	return *h
 }
 
-// replacesStored reports whether bulk-loading the stream replaces an element stored
-// earlier (by Pre or by an earlier chunk: a repeated id always starts a new chunk).
-// Vertices: any repeated id; edges: a repeated id with another label or endpoints.
+// storedShapes is the bookkeeping behind the steering: which vertex ids are stored and
+// which (label, endpoints) each stored edge id has. Pre elements are stored one at a time,
+// the last version of an id is the stored one.
+type storedShapes struct {
+	v map[string]bool
+	e map[string]string
+}
+
+func shapesAfter(pre []Elem) *storedShapes {
+	st := &storedShapes{v: map[string]bool{}, e: map[string]string{}}
+	for _, e := range pre {
+		if e.El == nil {
+			continue
+		}
+		if e.El.Edge {
+			st.e[e.El.ID] = e.El.Label + "\x00" + e.El.From + "\x00" + e.El.To
+		} else {
+			st.v[e.El.ID] = true
+		}
+	}
+	return st
+}
+
+// replaces reports whether bulk-loading el replaces a stored element through a separate
+// update (vertices: any stored id; edges: a stored id with another label or endpoints);
+// otherwise el is recorded as stored. A repeated id always starts a new chunk, so the
+// earlier version of the same stream is stored by then.
+func (st *storedShapes) replaces(el *model.Element) bool {
+	if el.Edge {
+		shape := el.Label + "\x00" + el.From + "\x00" + el.To
+		if old, ok := st.e[el.ID]; ok && old != shape {
+			return true
+		}
+		st.e[el.ID] = shape
+		return false
+	}
+	if st.v[el.ID] {
+		return true
+	}
+	st.v[el.ID] = true
+	return false
+}
+
 func replacesStored(pre, stream []Elem) bool {
-	seenV := map[string]bool{}
-	seenE := map[string]string{}
-	for _, l := range [][]Elem{pre, stream} {
-		for _, e := range l {
-			if e.El == nil {
-				continue
-			}
-			if e.El.Edge {
-				shape := e.El.Label + "\x00" + e.El.From + "\x00" + e.El.To
-				if old, ok := seenE[e.El.ID]; ok && old != shape {
-					return true
-				}
-				seenE[e.El.ID] = shape
-			} else {
-				if seenV[e.El.ID] {
-					return true
-				}
-				seenV[e.El.ID] = true
-			}
+	st := shapesAfter(pre)
+	for _, e := range stream {
+		if e.El != nil && st.replaces(e.El) {
+			return true
 		}
 	}
 	return false
@@ -172,30 +197,13 @@ func replacesStored(pre, stream []Elem) bool {
 
 // withoutReplacements drops the stream elements that would replace a stored element.
 func withoutReplacements(pre, stream []Elem) []Elem {
-	seenV := map[string]bool{}
-	seenE := map[string]string{}
+	st := shapesAfter(pre)
 	var out []Elem
-	for pi, l := range [][]Elem{pre, stream} {
-		for _, e := range l {
-			keep := true
-			if e.El.Edge {
-				shape := e.El.Label + "\x00" + e.El.From + "\x00" + e.El.To
-				if old, ok := seenE[e.El.ID]; ok && old != shape {
-					keep = false
-				} else {
-					seenE[e.El.ID] = shape
-				}
-			} else {
-				if seenV[e.El.ID] {
-					keep = false
-				} else {
-					seenV[e.El.ID] = true
-				}
-			}
-			if pi == 1 && keep {
-				out = append(out, e)
-			}
+	for _, e := range stream {
+		if e.El != nil && st.replaces(e.El) {
+			continue
 		}
+		out = append(out, e)
 	}
 	return out
 }
@@ -237,7 +245,15 @@ func execKV(t pbt.TB, c Case, budget time.Duration) string {
 	}
 	db := s.db
 	bulkName, twinName := gripx.FreshName(), gripx.FreshName()
-	open := func(name string) gdbi.GraphInterface {
+	// creating a graph can already fail on a driver with a defective KV adapter
+	// (reported under the driver's name; the adapters are another property's subject)
+	open := func(name string) (gi gdbi.GraphInterface) {
+		defer func() {
+			if r := recover(); r != nil {
+				gi = nil
+				disc("setup:AddGraph-panic", "%s: creating graph %s panicked: %v", c.Driver, name, r)
+			}
+		}()
 		if err := db.AddGraph(name); err != nil {
 			t.Fatalf("INFRA: AddGraph(%s) on %s: %v", name, c.Driver, err)
 		}
@@ -248,9 +264,14 @@ func execKV(t pbt.TB, c Case, budget time.Duration) string {
 		return gi
 	}
 	bulk := open(bulkName)
+	if bulk == nil {
+		return "stopped"
+	}
 	var twin gdbi.GraphInterface
 	if c.Twin {
-		twin = open(twinName)
+		if twin = open(twinName); twin == nil {
+			return "stopped"
+		}
 	}
 	m := newMGraph()
 	for _, e := range c.Pre {
@@ -289,6 +310,9 @@ func execKV(t pbt.TB, c Case, budget time.Duration) string {
 		sig := "kvgraph-bulk:hang"
 		if replacesStored(c.Pre, stream) {
 			sig = hangSig
+		}
+		if txt := c.text(); len(txt) < 4000 {
+			fmt.Fprintf(os.Stderr, "C18: %s%s on %s\n", prefix, sig, txt) // hangs are rare and cost a store: keep a trace
 		}
 		disc(sig, "%s: BulkAdd of %d valid elements [%s] (pre-existing: [%s]) never returns; goroutines parked:\n%s", c.Driver, len(stream), show, streamText(c.Pre), evidence)
 		return "hang"
@@ -364,7 +388,7 @@ func steer(t pbt.TB, c Case) Case {
 
 func TestKVRandom(t *testing.T) {
 	drivers := kvDrivers()
-	pbt.Check(t, 240, 12000, func(rt *rapid.T) {
+	pbt.Check(t, 160, 3000, func(rt *rapid.T) {
 		c := Case{Entry: "kvgraph", Twin: true, Present: []string{"ga"}}
 		c.Driver = rapid.SampledFrom(drivers).Draw(rt, "driver")
 		// the boundary lengths are enumerated by TestKVLengths; the twin costs two
